@@ -282,6 +282,11 @@ def mutants(rng, p, cfg, tier):
     for path, decl in maps:
         names = ["zz"]
         others = [n for n in POOL if n not in decl]
+        if path == () and p["sub"]:
+            # a top-level key named like an argument of a subcommand is looked up as that argument's previous value
+            # (ActionTypeHint._check_type: cfg.get(self.dest) on the parent's namespace): outside the modelled space
+            subnames = set(a[0] for _, sargs in p["sub"]["map"] for a in sargs)
+            others = [n for n in others if n not in subnames]
         if others:
             names.append(rng.choice(others))
         for name in names:
